@@ -39,18 +39,24 @@ def verify(sdir, props, tier="quick"):
         shutil.copy(os.path.join(sdir, "demo.py"), os.path.join(repo, "demo_seeded.py"))
         shutil.copy(os.path.join(sdir, "demo.py"), os.path.join(repo, "demo.py"))  # some demos import themselves by name in a child process
         rc0, out0 = run([PY, "demo_seeded.py"], repo, {"PYTHONPATH": repo})
+        refreshed = None
         rc, out = run(["git", "apply", os.path.join(sdir, "patch.diff")], repo)
         if rc:
             # the context moved (a later repair touched the lines nearby): apply with fuzz and store the refreshed patch
             rc, out = run(["patch", "-p1", "-F3", "--no-backup-if-mismatch", "-i", os.path.join(sdir, "patch.diff")], repo)
             if not rc:
                 _, refreshed = run(["git", "diff", "--", "func_adl"], repo)
-                open(os.path.join(sdir, "patch.diff"), "w").write(refreshed)
         if rc:
             print("PATCH DOES NOT APPLY to the current /repo (meta.json left untouched):", out)
             return meta
         rcs, outs = run([PY, "-m", "pytest", "-q", "-p", "no:cacheprovider", "--timeout=900"], repo, {"PYTHONPATH": repo})
         rc1, out1 = run([PY, "demo_seeded.py"], repo, {"PYTHONPATH": repo})
+        if refreshed is not None:
+            if rcs == 0 and rc0 == 0 and rc1 != 0:
+                open(os.path.join(sdir, "patch.diff"), "w").write(refreshed)  # still the same seeded change: keep the refreshed patch
+            else:
+                print("PATCH DOES NOT APPLY to the current /repo (applied with fuzz it is no longer the seeded change; meta.json left untouched)")
+                return meta
         meta.update(
             applies=True,
             suite_with_change=(outs.strip().splitlines() or ["?"])[-1],
